@@ -32,8 +32,8 @@ def load_known():
 
 def match_known(known, prop, group, ob):
     for k in known.get("findings", []):
-        if k["property"] != prop:
-            continue
+        if k["property"] != prop or "obligation" not in k:
+            continue   # (audit findings are matched separately)
         if k.get("group") and not re.search(k["group"], group):
             continue
         if k.get("function") and k["function"] not in ob["location"]:
